@@ -231,4 +231,10 @@ def plan(tier):
                       space='a batch of 2..3 units in one suspend point handed to a pool of 2..3 parked workers (pool.resume(sp)); the unit that runs first does not return before its siblings have run '
                             '(it lets the other runnable workers run meanwhile) x whom notify_one wakes; full product',
                       bounds='<= 3 workers, <= 3 units', outside='see h_pool'))
+    pv = [[n, jk, w, oth] for n in range(3) for jk in range(4) for w in range(n + 1) for oth in range(2) if not (n == 0 and oth == 1)]
+    units.append(dict(common, name='h_stop_prepark', entry='h_stop_prepark', vectors=pv, concrete=[], replay_on='translation',
+                      space='stop() of another thread lands while worker w is entering condition_variable::wait (predicate evaluated, mutex held, not yet registered as a waiter - pre-park hook of the runtime model): '
+                            '[workers 1..3, job submitted before (none, co_await pool, run(fn), run_detached), w, the other workers not yet run / parked]; full product. What stop() does before it needs the pool mutex happens '
+                            'in that window, from its first acquisition on the worker is waiting',
+                      bounds='one stop(), one worker in the window', outside='two workers in the window at once; the window of the timed wait (scheduler: C12 h_start_mt)'))
     return units
